@@ -189,6 +189,7 @@ def verus_part(out: Outcome, prop: str, decls, tag=None):
         'wall_s': round(time.time() - t0, 1),
     })
     out.trusted += [t for t in report.VERUS_TRUSTED if t not in out.trusted]
+    ev['assumption_scan'] = dict(pipeline.ASSUMPTION_SCAN, note='mechanical scan for assume/admit/external_body/assume_specification/axiom: allowed only in the fixed prelude and the auxiliary items (symbolic bounds, custom functions); zero inside the modules that came from the dump')
     return rejected
 
 
@@ -381,6 +382,17 @@ def c16_part(out: Outcome, tier):
     out.trusted.append('C16: the phrase -> relation table in vf/c16.py (reading of English) is trusted; unknown wording is undecided')
 
 
+def std_axioms_sanity(out):
+    """bounded run of the assumed std axioms against the real standard library (labelled bounded)"""
+    env = dict(pipeline.ENV)
+    env['CARGO_TARGET_DIR'] = os.path.join(pipeline.VERIF, 'target', 'stdaxioms')
+    rc, o, e, _ = pipeline.sh(['cargo', 'run', '--release', '--offline', '-q'], cwd=os.path.join(pipeline.VERIF, 'vf', 'stdaxioms'), env=env, timeout=900)
+    line = (o.strip().splitlines() or [''])[-1]
+    out.bounded.append('std axioms A1-A7 (vf/verus_prelude.rs) executed against real std, bounded: %s' % line[:300])
+    if rc != 0:
+        out.undecided.append('an assumed std axiom is FALSE on a concrete string, the C11 lemmas are not trustworthy: ' + line[:400])
+
+
 def run_property(prop, tier, seed):
     out = Outcome(prop, tier, seed)
     if prop == 'C16':
@@ -392,6 +404,8 @@ def run_property(prop, tier, seed):
     try:
         decls = [d for d in catalogue.verus_catalogue(tier, seed) if prop in d.props and d.verus]
         verus_part(out, prop, decls)
+        if prop == 'C11':
+            std_axioms_sanity(out)
         from vf import kani_side
         kani_side.kani_part(out, prop, tier, seed)
     except Undecided as e:
